@@ -664,6 +664,11 @@ func (x *exec) ptrOrOpaque(st *State, v Val) Term {
 // unbox turns an interface payload back into a value of concrete type t.
 func (x *exec) unbox(st *State, pay Term, t types.Type) Val {
 	switch t.Underlying().(type) {
+	case *types.Pointer, *types.Struct:
+		// the object behind an existing interface value was allocated earlier
+		st.assume(And(Le(Zero, pay), Le(pay, st.W)))
+	}
+	switch t.Underlying().(type) {
 	case *types.Pointer:
 		return &PtrV{Obj: pay, Root: deref(t)}
 	case *types.Basic:
